@@ -52,9 +52,17 @@ fn check(gsrc: &str, input: &str) -> Result<bool, String> {
     let ids: std::collections::HashMap<&str, u32> = grm.tokens_map().into_iter().map(|(k, v)| (k, u32::from(v))).collect();
     lexerdef.set_rule_ids(&ids);
     let lexer = lexerdef.lexer(input);
-    let pb = RTParserBuilder::new(&grm, &stable).recoverer(RecoveryKind::None);
-    let (tree, errs) = pb.parse_generictree(&lexer);
-    if !errs.is_empty() || tree.is_none() { return Ok(false); }
+    let pb0 = RTParserBuilder::new(&grm, &stable).recoverer(RecoveryKind::None);
+    let (tree0, errs0) = pb0.parse_generictree(&lexer);
+    // a rejected input is parsed again with error recovery; it is only judged when every error has exactly one
+    // repair sequence (otherwise which one gets applied is not determined and two parses need not agree)
+    let with_recovery = !errs0.is_empty() || tree0.is_none();
+    let pb = if with_recovery { RTParserBuilder::new(&grm, &stable).recoverer(RecoveryKind::CPCTPlus) } else { pb0 };
+    let (tree, errs) = if with_recovery { let l = lexerdef.lexer(input); pb.parse_generictree(&l) } else { (tree0, errs0) };
+    if with_recovery {
+        if tree.is_none() { return Ok(false); }
+        for e in &errs { match e { lrpar::LexParseError::ParseError(pe) if pe.repairs().len() == 1 => (), _ => return Ok(false) } }
+    }
     let mut expect = Vec::new();
     postfix(tree.as_ref().unwrap(), &mut expect);
     // one recording action per production
@@ -66,7 +74,7 @@ fn check(gsrc: &str, input: &str) -> Result<bool, String> {
     let actions = vec![fr; usize::from(grm.prods_len())];
     let lexer2 = lexerdef.lexer(input);
     let (_v, errs2) = pb.parse_actions(&lexer2, &actions, ());
-    if !errs2.is_empty() { return Err("parse_actions reports errors where parse_generictree does not".into()); }
+    if errs2.len() != errs.len() { return Err("parse_actions and parse_generictree report different numbers of errors".into()); }
     let got = calls.borrow().clone();
     if got.len() != expect.len() { return Err(format!("{} action calls for {} reductions", got.len(), expect.len())); }
     for (i, ((r, n, sp), (er, en, ed))) in got.iter().zip(expect.iter()).enumerate() {
